@@ -15,9 +15,9 @@ EXPLANATION = ("Harness c19.prog: two instances with a call-counting dynamic val
                "order and instance, repeated reads at one time do not call the generator again, inspection never calls it, leaving "
                "a time context restores the time exactly, push/pop restores cached value and time stamp.")
 STUBS = []
-OUTSIDE = ["per-instance copies of a generator at times other than the time of the copy (the time function is deep-copied with it)", "statistical quality of the hash", "time types other than int", "times outside [0,3]"]
+OUTSIDE = ["per-instance copies of a generator read at times other than the time of the copy (the time function is deep-copied with it)", "statistical quality of the hash", "time types other than int", "times outside [0,3]"]
 ASSUMPTIONS = ["times in [0,3] (values are realised by struct.pack / hashing inside numbergen)"]
-N_OPS = 9
+N_OPS = 10
 
 
 class Gen:
@@ -136,6 +136,19 @@ def prog(k: int, o1: int, t1: int, o2: int, t2: int, o3: int, t3: int, o4: int, 
                 finally:
                     pass
                 check('C19.context_restores_time', tm() == before and swallowed is True, dict(info, now2=tm(), swallowed=swallowed))
+            elif o == 9:        # the class is read, then an instance is created and read for the first time at the same time
+                assume(t <= 1)
+                cls_v = PC.cu if t == 0 else None
+                with untraced():
+                    pcn = PC()
+                try:
+                    v = pcn.cu
+                    err = None
+                except Exception as e:      # noqa  a read that fails is a wrong outcome, reported through the label
+                    v, err = None, type(e).__name__
+                check('C19.instance_independent', err is None, dict(info, new_instance=True, class_read_first=(t == 0), raised=err))
+                check('C19.same_time_same_value', pcn.cu == v, dict(info, new_instance=True))
+                check('C19.instance_independent', v == PC.cu and (cls_v is None or v == cls_v), dict(info, new_instance=True, class_read_first=(t == 0), v=v))
             elif o == 6:
                 if not pushed:
                     p.param._state_push()
@@ -181,4 +194,5 @@ def shards(tier):
 def bounds(tier):
     return dict(program_length=3 if tier == 'quick' else 5, times='[0,3]', context_nesting=2,
                 opcodes=['set time', 'advance 1', 'read on instance 1', 'inspect_value', 'enter time context + set time', 'leave context',
-                         '_state_push / _state_pop (alternating)', 'read on instance 2', 'leave context through StopIteration'])
+                         '_state_push / _state_pop (alternating)', 'read on instance 2', 'leave context through StopIteration',
+                         'read the class, create an instance, read it for the first time'])
